@@ -236,7 +236,7 @@ static void w_apply(mc_op_t o)
         break;
     }
     }
-    if (ab) { MC_CHECK(PC05, 0, "unexpected %s inside the library on properly handled pointer objects: %s", ab == 2 ? "assertion failure" : "abort()", ab == 2 ? shim_assert_msg : ""); return; }
+    if (ab) { MC_CHECK(PC05, 0, "unexpected %s inside the library on properly handled pointer objects: %s", ab == 3 ? "non-termination (a library call still running after 3 s)" : ab == 2 ? "assertion failure" : "abort()", ab == 2 ? shim_assert_msg : ""); return; }
     if (!mc_checking) return;
     drain_free_events();
     /* the events of this one operation -- clear(a), free(memory a), free(bookkeeping a) -- must be exactly the predicted ones, in order */
